@@ -44,7 +44,7 @@ theorem T1_seeded_stale_range_high_counterexample :
 `C01-branch-stage-single-merge`): `[10] + [20, 21, 22, 23]` splits into `[10, 20, 21, 22]` and the under-full remainder
 `[23]`, whose second merge is dropped: key 23 is in no node of the new level (and the page of `[20 … 23]` is freed).  One
 worker suffices; with two workers the same happens at the end of each worker's range. -/
-theorem T1_seeded_single_merge_counterexample :
+theorem T1_seeded_single_merge_stage_counterexample :
     (Toy.stage { singleMerge := true } Toy.lvlB Toy.csB 1 false 1000) =
       some ([[10, 20, 21, 22], [30, 31, 32]], [Pn.old 1, Pn.old 2]) ∧
     (Toy.stage {} Toy.lvlB Toy.csB 1 false 1000) =
